@@ -4,6 +4,7 @@ CONSTANTS
   Vals = {0, 1, 2}
   IsBlob = TRUE
   SetterMarksDirty = TRUE
+  ExplicitSha1Recomputes = TRUE
   ChunkedResetsSha = FALSE
 INVARIANT IdIsHash
 INVARIANT SerCurrent
